@@ -91,6 +91,7 @@ func (v *Value) UnmarshalNBT(tagType byte, r nbt.DecoderReader) error {
 		}
 
 		v.list = v.list[:0]
+		v.data = append(v.data[:0], t) // the element type, kept for an empty list
 
 		for i := int32(0); i < length; i++ {
 			field := new(Value)
